@@ -23,6 +23,7 @@ def run(ctx):
     prog = ctx.progs["rumqttd"]
     ctx.guarded("R-C08-save", save, ctx, prog)
     ctx.guarded("R-C08-cursor", cursor_chain, ctx, prog)
+    ctx.guarded("R-C08-cursor", head_kept_on_mismatch, ctx, prog)
     ctx.guarded("R-C08-restore", restore, ctx, prog)
     ctx.guarded("R-C08-single-home", single_home, ctx, prog)
 
@@ -189,6 +190,24 @@ def save(ctx, prog):
 def restore(ctx, prog):
     rule = "R-C08-restore"
     body = prog.one(r"^router::routing::Router::handle_new_connection$")
+    # the stored session is looked up AFTER a takeover has put the replaced connection's session into the graveyard,
+    # and only on paths that go on to register the new connection (a refused CONNECT must not consume it)
+    retr = [bb for bb, t in body.calls() if callee_path(t).endswith("Graveyard::retrieve") and not body.is_cleanup(bb)]
+    takeover = [bb for bb, t in body.calls() if callee_path(t).endswith("Router::handle_disconnection") and not body.is_cleanup(bb)]
+    inserts = [bb for bb, t in body.calls() if re.search(r"^slab::Slab::<T>::insert$", callee_path(t)) and not body.is_cleanup(bb)]
+    if len(retr) != 1:
+        raise AnchorMissing("handle_new_connection: expected one Graveyard::retrieve, found %d" % len(retr))
+    if set(takeover) & reachable_after(body, retr):
+        ctx.violation(rule, body.id, "session looked up before the takeover saved it",
+                      "Graveyard::retrieve runs before the takeover's handle_disconnection: on a client-id takeover the replaced connection's session is not in the graveyard yet, the new connection starts without it (session_present = false, no subscriptions, nothing re-sent) and the old session is left behind",
+                      site=body.loc(body.blocks[retr[0]]["t"].get("sp")))
+    else:
+        ctx.ok(rule, body.id, "the takeover's handle_disconnection cannot run after Graveyard::retrieve", site=body.loc(body.blocks[retr[0]]["t"].get("sp")))
+    if inserts and not (reachable_after(body, retr, avoid_blocks=tuple(inserts)) & set(return_blocks(body))):
+        ctx.ok(rule, body.id, "every path from Graveyard::retrieve registers the connection (no refusal consumes the stored session)")
+    else:
+        ctx.violation(rule, body.id, "stored session consumed by a refused connect",
+                      "a path takes the stored session out of the graveyard and returns without registering the connection (e.g. the max_connections refusal): the session is lost", site=body.loc(body.blocks[retr[0]]["t"].get("sp")))
     # ConnAck.session_present
     found = False
     for bi, b in enumerate(body.blocks):
@@ -439,3 +458,34 @@ def cursor_chain(ctx, prog):
         ctx.violation(rule, rm.id, "retained replay claims the filter's slot", "retransmission_map lets an entry without a log cursor (a retained replay) occupy a filter's slot: the unacknowledged log messages behind it are never re-sent after resume", site=rm.fn_loc())
     else:
         ctx.violation(rule, rm.id, "oldest cursor not kept", "retransmission_map no longer keeps the first (oldest) unacknowledged cursor per filter", site=rm.fn_loc())
+
+
+def head_kept_on_mismatch(ctx, prog):
+    """What the rewind relies on must survive the very event that triggers the disconnect: an out-of-order /
+    unsolicited PUBACK, PUBREC or PUBCOMP closes the connection, and for a persistent session the entry at the head of
+    inflight_buffer (oldest unacknowledged forward) / unacked_pubrels (oldest pending release) is still unacknowledged.
+    It may leave the queue only on the edge where it IS the acknowledged id."""
+    rule = "R-C08-cursor"
+    for name, field in (("register_ack", "inflight_buffer"), ("register_pubcomp", "unacked_pubrels")):
+        b = prog.one(r"^router::iobufs::Outgoing::%s$" % name)
+        pops = [bb for bb, t in b.calls() if callee_path(t).endswith("VecDeque::<T, A>::pop_front") and (receiver_fields(b, t) or [None])[-1] == field and not b.is_cleanup(bb)]
+        if not pops:
+            raise AnchorMissing("%s: pop_front on %s not found" % (name, field))
+        is_pkid = lambda ss: any(x.kind == "param" and x.l == 2 for x in ss)
+        def is_head(ss, b=b):
+            for x in ss:
+                if x.kind != "call":
+                    continue
+                if re.search(r"VecDeque::<T, A>::(front|pop_front|get)$", x.path):
+                    return True
+                if x.path.endswith("ops::Try>::branch") and any(y.kind == "call" and re.search(r"VecDeque::<T, A>::(front|pop_front|get)$", y.path) for y in flatten_src(provenance(b, x.term["args"][0]))):
+                    return True
+            return False
+        eqs = cmp_switches(b, ("Eq",), is_pkid, is_head) or []
+        guarded = bool(eqs) and all(any(dominates(b, e[1], p_) for e in eqs) for p_ in pops)
+        if guarded:
+            ctx.ok(rule, b.id, "the head of %s is removed only on the edge where it equals the acknowledged id" % field, site=b.fn_loc())
+        else:
+            ctx.violation(rule, b.id, "head entry discarded by a mismatching ack",
+                          "%s pops the head of %s BEFORE comparing it with the acknowledged id: an out-of-order / unsolicited ack (which closes the connection) also throws away the oldest unacknowledged entry, so a persistent session resumes one message (release) later and that one is never re-sent"
+                          % (name, field), site=b.loc(b.blocks[pops[0]]["t"].get("sp")))
